@@ -135,6 +135,7 @@ type Sim struct {
 	last      *Task
 	lastClass int
 	started   bool
+	skew      int64 // logical clock skew (ns) added to time.Now for kevo code
 
 	// OnStep, if set, is called by the scheduler after every synctest.Wait
 	// while all tasks are parked (cheap invariants).
@@ -891,5 +892,27 @@ func TaskDying() bool {
 func ExitIfDying() {
 	if t := Cur(); t != nil && t.die {
 		runtime.Goexit()
+	}
+}
+
+// TimeNow is time.Now for instrumented code: the bubble clock plus a logical
+// skew that grows with every file creation, so that names derived from
+// time.Now().UnixNano() are unique although virtual time does not advance
+// while tasks are runnable.
+func TimeNow() time.Time {
+	s := S
+	if s == nil {
+		return time.Now()
+	}
+	return time.Now().Add(time.Duration(s.skew))
+}
+
+func TimeSince(t time.Time) time.Duration { return TimeNow().Sub(t) }
+func TimeUntil(t time.Time) time.Duration { return t.Sub(TimeNow()) }
+
+// AdvanceSkew moves the logical clock of instrumented code forward.
+func AdvanceSkew(d time.Duration) {
+	if S != nil {
+		S.skew += int64(d)
 	}
 }
